@@ -4154,9 +4154,6 @@ class AsBoolean(WrapsColumnExpression[bool], UnaryExpression[bool]):
     def wrapped_column_expression(self):
         return self.element
 
-    def self_group(self, against: Optional[OperatorType] = None) -> Self:
-        return self
-
     def _negate(self):
         if isinstance(self.element, (True_, False_)):
             return self.element._negate()
